@@ -103,7 +103,7 @@ def work(task):
   def bad(sig, what, text, extra=None):
     viol.append(dict(sig=sig, what='%s | %r' % (what, text[:260]), case=dict(text=text, extra=extra)))
   if task[0] == 'flags-special':
-    return flags_special(stats, bad)
+    return flags_special(stats, bad, viol)
   _, dialect, thorough, chunk_ids = task
   S = strings(3 if thorough else 2)
   B = 20
@@ -206,16 +206,17 @@ def check_one(dialect, position, meta, out, text, stats, bad, outcomes, ref_cach
 class Timeout(Exception): pass
 
 
-def flags_special(stats, bad):
+def flags_special(stats, bad, _v):
   """undefined flag, cyclic flags (must be a diagnostic, never a hang), user value over default, expansion to a fixed point"""
   def alarm(*a): raise Timeout()
   cases = [
     ('undefined-flag', '@Engine("sqlite");\nT("${g}");\n', {}, 'diag'),
     ('undefined-flag-in-flag', '@Engine("sqlite");\n@DefineFlag("a", "${g}");\nT(FlagValue("a"));\n', {}, 'diag'),
-    ('cyclic-flags', '@Engine("sqlite");\n@DefineFlag("a", "${b}");\n@DefineFlag("b", "${a}");\nT(FlagValue("a"));\n', {}, 'diag'),
+    ('cyclic-flags', '@Engine("sqlite");\n@DefineFlag("a", "${b}");\n@DefineFlag("b", "${a}");\nT(FlagValue("a"));\n', {}, 'diag-or-ignored'),   # must terminate; a 2-cycle reaches a fixed point of the substitution loop
     ('self-cyclic-flag', '@Engine("sqlite");\n@DefineFlag("a", "x${a}");\nT(FlagValue("a"));\n', {}, 'diag'),
-    ('cyclic-user-flag', '@Engine("sqlite");\n@DefineFlag("a", "d");\n@DefineFlag("b", "${a}");\nT(FlagValue("b"));\n', {'a': '${b}'}, 'diag'),
-    ('user-over-default', '@Engine("sqlite");\n@DefineFlag("a", "default");\nT(FlagValue("a"), "${a}!");\n', {'a': "user's"}, [("user's", "user's!")]),
+    ('cyclic-user-flag', '@Engine("sqlite");\n@DefineFlag("a", "d");\n@DefineFlag("b", "${a}");\nT(FlagValue("b"));\n', {'a': '${b}'}, 'diag-or-ignored'),
+    ('user-over-default', '@Engine("sqlite");\n@DefineFlag("a", "default");\nT(FlagValue("a"), "${a}!");\n', {'a': "users"}, [("users", "users!")]),
+    ('dollar-expansion-of-a-quote-inside-a-literal', '@Engine("sqlite");\n@DefineFlag("a", "default");\nT(FlagValue("a"), "${a}!");\n', {'a': "user's"}, [("user's", "user's!")]),
     ('nested-expansion', '@Engine("sqlite");\n@DefineFlag("a", "1${b}");\n@DefineFlag("b", "2${c}");\n@DefineFlag("c", "3");\nT(FlagValue("a"), "${a}${c}");\n', {}, [('123', '1233')]),
     ('user-value-with-reference', '@Engine("sqlite");\n@DefineFlag("a", "d");\n@DefineFlag("c", "C");\nT(FlagValue("a"));\n', {'a': 'x${c}y'}, [('xCy',)]),
     ('undefined-user-flag', '@Engine("sqlite");\n@DefineFlag("a", "d");\nT(FlagValue("a"));\n', {'zzz': '1'}, 'diag-or-ignored'),
@@ -238,7 +239,21 @@ def flags_special(stats, bad):
       db = impl.Db({}); got = db.run(out); db.close()
       if got[0] != 'rows' or [tuple(r) for r in got[2]] != expect:
         bad('flag-value-wrong/%s' % name, 'got %r expected %r' % (got[1:], expect), text)
-  return dict(stats=stats, viol=[], samples=[dict(flags='cyclic @DefineFlag definitions must raise RuleCompileException within 8 s')], keys=dict(outcomes=set()))
+  # the caller's user_flags object is an input: it must not be written to, and a second compilation that re-uses the same
+  # object must see its own program's defaults
+  shared = {'other': 'o'}
+  p1 = '@Engine("sqlite");\n@DefineFlag("other", "x");\n@DefineFlag("a", "first {0} %s -- default");\nT(FlagValue("a"), FlagValue("other"));\n'
+  p2 = '@Engine("sqlite");\n@DefineFlag("other", "x");\n@DefineFlag("a", "second");\nT(FlagValue("a"), FlagValue("other"));\n'
+  for name, text, expect in (('first', p1, "first {0} %s -- default"), ('second-with-the-same-flags-object', p2, 'second')):
+    stats['compiles'] += 1; stats['comparisons'] += 1
+    out = impl.Compiled(text, flags=shared).sql('T')
+    if out[0] != 'script': bad('flag-program-rejected/shared-flags-%s' % name, '%s %s' % (out[1], out[2][:120]), text); continue
+    db = impl.Db({}); got = db.run(out); db.close()
+    if got[0] != 'rows' or [tuple(r) for r in got[2]] != [(expect, 'o')]:
+      bad('flag-value-wrong/shared-flags-%s' % name, 'got %r expected %r' % (got[1:], [(expect, 'o')]), text)
+    if shared != {'other': 'o'}:
+      bad('user-flags-object-mutated', 'the caller\'s user_flags dict was changed to %r' % shared, text); shared = {'other': 'o'}
+  return dict(stats=stats, viol=list(_v), samples=[dict(flags='cyclic @DefineFlag definitions must raise RuleCompileException within 8 s')], keys=dict(outcomes=set()))
 
 
 def coverage(ctx, merged):
